@@ -49,6 +49,10 @@ public:
         Object_release(me_);
       }
       me_ = rhs;
+    } else if (!Object_isNull(rhs)) {
+      // Same object: this proxy already owns a reference, so the one being
+      // consumed is given back instead of being dropped on the floor.
+      Object_release(rhs);
     }
   }
 
